@@ -622,10 +622,23 @@ pub fn listen<S: ?Sized + AsRef<str>, H: crate::ConnectionHandler + Send + Sync 
             let (r, mut w) = stream.split().unwrap();
             let mut br = BufReader::new(r);
             let mut iface: Option<String> = None;
+            // bytes handle() had already read but not processed when the
+            // connection was upgraded; they go in front of the stream again
+            let mut unread: Vec<u8> = Vec::new();
             loop {
-                match handler.handle(&mut br, &mut w, iface.clone()) {
-                    Ok((_, i)) => {
+                let res = {
+                    let mut rd = ::std::io::Read::chain(&unread[..], &mut br);
+                    handler.handle(&mut rd, &mut w, iface.clone())
+                };
+                match res {
+                    Ok((rest, i)) => {
+                        let just_upgraded = iface.is_none() && i.is_some();
                         iface = i;
+                        unread = if iface.is_some() { rest } else { Vec::new() };
+                        if just_upgraded && !unread.is_empty() {
+                            // the upgraded handler has not seen these bytes yet
+                            continue;
+                        }
                         match br.fill_buf() {
                             Err(_) => break,
                             Ok([]) => break,
